@@ -264,7 +264,7 @@ class Run:
         for v in variants:
             build.build_lib(v, pool=pool)
         for g in self.plan:
-            g['_bin'] = build.build_scen(g['scen'], g['variant'], extra_wraps=g.get('wraps', ()), extra_flags=g.get('cflags', ()))
+            g['_bin'] = build.build_scen(g['scen'], g['variant'], extra_wraps=g.get('wraps', ()), extra_flags=g.get('cflags', ()), ldflags=g.get('ldflags', ()))
         self.build_s = time.time() - t0
         for gi, g in enumerate(self.plan):
             for pi in range(g['procs']):
@@ -381,11 +381,11 @@ def replay(prop, path):
              wraps=c.get('wraps', []), procs=1, rounds=1)
     full = plans.find_group(prop, c)
     if full:
-        for k in ('cflags', 'owners', 'env', 'quarantine_mb'):
+        for k in ('cflags', 'owners', 'env', 'quarantine_mb', 'ldflags'):
             if k in full:
                 g[k] = full[k]
     run = Run(prop, c.get('tier', 'quick'), c.get('verif_seed', 1), [g])
-    binary = build.build_scen(g['scen'], g['variant'], extra_wraps=g.get('wraps', ()), extra_flags=g.get('cflags', ()))
+    binary = build.build_scen(g['scen'], g['variant'], extra_wraps=g.get('wraps', ()), extra_flags=g.get('cflags', ()), ldflags=g.get('ldflags', ()))
     start = w.get('start_round', 0)
     rnd = w.get('round', start)
     attempts = 1 if c['mode'] == 'B' else 10
